@@ -28,8 +28,38 @@ FINDINGS = {
 }
 CASE_DEADLINE = 20
 D = Decimal
-POOL = ['a', 'b', 'x', 'len', 'str', 'max', 'hv', 'hs', 'hl']
+POOL = ['a', 'b', 'x', 'len', 'str', 'max', 'hv', 'hs', 'hl', 'hw', 'hn']
 FNS = ['f', 'g', 'h', 'upper']
+
+
+class Wild:
+    """a host value that compares equal to everything (a matcher / wildcard object such as unittest.mock.ANY): still a value like any other"""
+    def __init__(self, tag):
+        self.verif_tag = tag
+
+    def __eq__(self, other):
+        return True
+
+    def __ne__(self, other):
+        return False
+
+    def __hash__(self):
+        return 7
+
+    def __repr__(self):
+        return 'Wild(%s)' % self.verif_tag
+
+
+class Never(Wild):
+    """... and one that compares unequal to everything, itself included, and is falsy"""
+    def __eq__(self, other):
+        return False
+
+    def __ne__(self, other):
+        return True
+
+    def __bool__(self):
+        return False
 
 
 def host(ctx):
@@ -44,7 +74,7 @@ def host(ctx):
 
     def hm(f, n):
         return [f(D(i)) for i in range(int(n))]
-    return {'hv': D(10), 'hs': 'host', 'hl': [D(1), D(2)], 'a': D(1), 'b': D(2), 'x': D(3), 'try_': try_, 'hm': hm}
+    return {'hv': D(10), 'hs': 'host', 'hl': [D(1), D(2)], 'a': D(1), 'b': D(2), 'x': D(3), 'try_': try_, 'hm': hm, 'hw': Wild('w'), 'hn': Never('n'), 'max': Wild('host-max')}
 
 
 def body_expr(r, params, depth=2):
@@ -109,7 +139,7 @@ def gen_program(r):
         elif c < 10:
             defined = [l.split(' = ')[0] for l in lines if ' => ' in l]
             f = r.choice(defined + defined + FNS + ['len', 'str', 'af'])
-            arg = r.choice(['1', '2', '"ab"', 'hv', 'hl', 'a', 'x', '[1, 2]', '99', '120'])
+            arg = r.choice(['1', '2', '"ab"', 'hv', 'hl', 'a', 'x', '[1, 2]', '99', '120', 'hw', 'hn', 'hw'])
             form = r.randrange(10)
             lines.append(['%s(%s)' % (f, arg), '%s(%s, %s)' % (f, arg, r.choice(['3', 'len', 'str', '"z"'])), 'try_(%s, %s)' % (f, arg), 'hm(%s, 2)' % f, 'map([1, 2], %s)' % f,
                           'try_(%s, %s, 4)' % (f, arg), '%s()' % f, 'filter([1, 0, 2], %s)' % f, '(%s) | %s' % (arg, f), 'r%d = try_(%s, %s)' % (len(lines), f, arg)][form])
